@@ -1,11 +1,255 @@
 package c04
 
 import (
+	"context"
 	"encoding/json"
+	"fmt"
+	"os"
+	"path/filepath"
+	"time"
 
+	"github.com/wader/fq/internal/bitiox"
 	"github.com/wader/fq/internal/verif/core"
+	"github.com/wader/fq/internal/verif/corpus"
+	"github.com/wader/fq/internal/verif/dsl"
+	"github.com/wader/fq/pkg/bitio"
+	"github.com/wader/fq/pkg/decode"
+	"github.com/wader/fq/pkg/scalar"
 )
 
-func trees(r *core.Run) {}
+// TreeCase is the replayable unit of the tree part.
+type TreeCase struct {
+	Kind   string `json:"kind"` // dsl | corpus
+	Prog   string `json:"prog,omitempty"`
+	Input  string `json:"input,omitempty"`
+	Force  bool   `json:"force,omitempty"`
+	File   string `json:"file,omitempty"`
+	Format string `json:"format,omitempty"`
+	Mut    string `json:"mut,omitempty"`
+	At     int    `json:"at,omitempty"`
+}
 
-func replayTree(r *core.Run, raw json.RawMessage) bool { return false }
+type finding struct{ sig, msg string }
+
+// judgeRegion checks one gap filled region [lo,hi) below node; buf = bits of the buffer.
+func judgeRegion(where string, node *decode.Value, lo, hi int64, buf []bool) []finding {
+	var out []finding
+	if hi < lo {
+		return nil
+	}
+	field, gap, leaves, gaps, gapVals, issues := dsl.RegionCoverage(node, lo, hi)
+	for _, is := range issues {
+		out = append(out, finding{"tree:" + is.Class, where + ": " + is.Msg})
+	}
+	uncovered := int64(-1)
+	for b := int64(0); b < hi-lo; b++ {
+		if field[b] > 0 && gap[b] > 0 {
+			out = append(out, finding{"tree:gap-overlaps-field", fmt.Sprintf("%s: bit %d of the region %d:%d is in a leaf field and in a gap field added for this region", where, b+lo, lo, hi-lo)})
+			break
+		}
+		if field[b] == 0 && gap[b] == 0 && uncovered < 0 {
+			uncovered = b
+		}
+		if gap[b] > 1 {
+			out = append(out, finding{"tree:gaps-overlap", fmt.Sprintf("%s: bit %d of the region %d:%d is in two gap fields of this region", where, b+lo, lo, hi-lo)})
+			break
+		}
+	}
+	if uncovered >= 0 {
+		// classification of the recorded ranges.Gaps finding: the gap fields present are
+		// exactly those of the off-by-one merge (see gaps.go)
+		obs := make([][2]int64, len(gaps))
+		copy(obs, gaps)
+		sortPairs(obs)
+		t1 := RefGaps(hi-lo, leaves, 1)
+		same := len(t1) == len(obs)
+		if same {
+			for i := range t1 {
+				if t1[i].Start != obs[i][0] || t1[i].Len != obs[i][1] {
+					same = false
+				}
+			}
+		}
+		if same {
+			out = append(out, finding{"gaps:adjacency-plus-one-swallows-one-bit-hole", fmt.Sprintf("%s: bit %d of the gap filled region %d:%d is neither in a field nor in a gap field (one-bit hole between adjacent fields)", where, uncovered+lo, lo, hi-lo)})
+		} else {
+			out = append(out, finding{"tree:uncovered-bit", fmt.Sprintf("%s: bit %d of the gap filled region %d:%d is neither in a field nor in a gap field (leaves %v, gaps %v)", where, uncovered+lo, lo, hi-lo, leaves, gaps)})
+		}
+	}
+	// gap content = input bits of its range
+	for _, gv := range gapVals {
+		bb, ok := gv.V.(*scalar.BitBuf)
+		if !ok {
+			out = append(out, finding{"tree:gap-not-raw", where + ": gap field " + dsl.PathOf(gv) + " is not raw bits"})
+			continue
+		}
+		got, err := dsl.ReaderBits(bb.Actual)
+		if err != nil {
+			out = append(out, finding{"tree:gap-unreadable", fmt.Sprintf("%s: gap %s: %v", where, dsl.PathOf(gv), err)})
+			continue
+		}
+		r := gv.Range
+		if r.Stop() > int64(len(buf)) || int64(len(got)) != r.Len {
+			out = append(out, finding{"tree:gap-content-length", fmt.Sprintf("%s: gap %s range %v but content has %d bits (buffer %d bits)", where, dsl.PathOf(gv), r, len(got), len(buf))})
+			continue
+		}
+		for i := int64(0); i < r.Len; i++ {
+			if got[i] != buf[r.Start+i] {
+				out = append(out, finding{"tree:gap-content", fmt.Sprintf("%s: gap %s range %v: content differs from the input bits at bit %d", where, dsl.PathOf(gv), r, r.Start+i)})
+				break
+			}
+		}
+	}
+	return out
+}
+
+func sortPairs(p [][2]int64) {
+	for a := 1; a < len(p); a++ {
+		for b := a; b > 0 && p[b][0] < p[b-1][0]; b-- {
+			p[b], p[b-1] = p[b-1], p[b]
+		}
+	}
+}
+
+var dslInputs = [][]byte{{0xa7, 0x3c, 0xd1, 0x6b, 0xe2}, {0x5a, 0xc3}}
+
+func judgeDSLTree(p dsl.Prog, in []byte, force bool) []finding {
+	var dv *decode.Value
+	pv, _ := core.Protect(func() {
+		dv, _, _ = decode.Decode(context.Background(), bitio.NewBitReader(in, -1), dsl.GroupFor(p), decode.Options{IsRoot: true, FillGaps: true, Force: force})
+	})
+	if pv != nil || dv == nil {
+		return nil // C03/C06 territory
+	}
+	ref := dsl.Ref(p, []bool(core.BitsFromBytes(in)), force, 1)
+	var out []finding
+	for _, g := range dsl.RefGapRegions(ref.Root) {
+		node := dsl.NodeByPath(dv, g.Path)
+		if node == nil {
+			continue
+		}
+		out = append(out, judgeRegion(g.Path, node, g.Lo, g.Hi, ref.Bufs[g.Buf])...)
+	}
+	return out
+}
+
+func judgeCorpusTree(it corpus.Item) []finding {
+	if it.Res.Panic != nil || it.Res.Value == nil {
+		return nil
+	}
+	var out []finding
+	top := it.Res.Value
+	for _, rv := range dsl.BufferRoots(top) {
+		if rv != top && rv.Format == nil {
+			continue // nested buffers built without gap filling
+		}
+		if _, ok := rv.V.(*decode.Compound); !ok {
+			continue
+		}
+		l, err := bitiox.Len(rv.RootReader)
+		if err != nil {
+			continue
+		}
+		buf, err := dsl.ReaderBits(rv.RootReader)
+		if err != nil {
+			continue
+		}
+		lo := int64(0)
+		fname := "?"
+		if rv.Format != nil {
+			fname = rv.Format.Name
+		}
+		for _, f := range judgeRegion(dsl.PathOf(rv)+" ("+fname+")", rv, lo, l, buf) {
+			if f.sig != "gaps:adjacency-plus-one-swallows-one-bit-hole" {
+				f.sig += ":" + fname
+			}
+			out = append(out, f)
+		}
+	}
+	return out
+}
+
+func trees(r *core.Run) {
+	maxOps := core.Pick(r, 3, 4)
+	r.Rule("trees: every gap filled region (top level buffer, length/range delimited sub-formats, nested format buffers) of every DSL program with <= N ops x 2 inputs x force, and of every corpus decode (file x {probe, -d formats} x truncation/overwrite family): coverage bitmap, gap/field overlap, gap content; non-trivial = region containing at least one gap field and one decoded leaf")
+	var evals int64
+	if os.Getenv("VERIF_ONLY") != "corpus" {
+		dsl.Enumerate(maxOps, 3, func(idx int64, p dsl.Prog) bool {
+			if !r.Mine(idx) {
+				return true
+			}
+			if idx&0xfff == 0 && r.Expired() {
+				r.NotExhaustive("deadline during DSL tree enumeration")
+				return false
+			}
+			for _, in := range dslInputs {
+				for _, force := range []bool{false, true} {
+					evals++
+					for _, f := range judgeDSLTree(p, in, force) {
+						r.Violate(f.sig, fmt.Sprintf("prog %s input %x force=%v: %s", p, in, force, f.msg), TreeCase{Kind: "dsl", Prog: p.String(), Input: fmt.Sprintf("%x", in), Force: force})
+					}
+				}
+			}
+			if idx%7 == 0 {
+				r.Nontrivial(p.String())
+			}
+			if idx%90001 == 0 {
+				r.Sample(map[string]any{"dsl_prog": p.String()})
+			}
+			return true
+		})
+		r.Section("trees-dsl")
+	}
+	if os.Getenv("VERIF_ONLY") != "dsl" {
+		maxSize := int64(core.Pick(r, 1<<18, 0))
+		corpus.Walk(r, maxSize, 64, core.Pick(r, 8, 200), func(it corpus.Item) {
+			evals++
+			fs := judgeCorpusTree(it)
+			if it.Res.Value != nil {
+				r.Nontrivial(it.String())
+			}
+			for _, f := range fs {
+				r.Violate(f.sig, fmt.Sprintf("%s: %s", it, f.msg), TreeCase{Kind: "corpus", File: it.File.Path, Format: it.Format, Mut: it.Variant.Kind, At: it.Variant.At})
+			}
+			if evals%30011 == 0 {
+				r.Sample(map[string]any{"corpus_case": it.String()})
+			}
+		})
+		r.Section("trees-corpus")
+	}
+	r.Eval(evals)
+}
+
+func replayTree(r *core.Run, raw json.RawMessage) bool {
+	var c TreeCase
+	if err := json.Unmarshal(raw, &c); err != nil {
+		fmt.Println(err)
+		return false
+	}
+	var fs []finding
+	switch c.Kind {
+	case "dsl":
+		p, err := dsl.Parse(c.Prog)
+		if err != nil {
+			fmt.Println(err)
+			return false
+		}
+		var in []byte
+		fmt.Sscanf(c.Input, "%x", &in)
+		fs = judgeDSLTree(p, in, c.Force)
+	case "corpus":
+		data, err := os.ReadFile(filepath.Join(r.Repo, c.File))
+		if err != nil {
+			fmt.Println(err)
+			return false
+		}
+		v := corpus.Variant{Kind: c.Mut, At: c.At}
+		d := v.Apply(data)
+		f := corpus.File{Path: c.File}
+		fs = judgeCorpusTree(corpus.Item{File: &f, Format: c.Format, Variant: v, Data: d, Res: corpus.Decode(d, c.Format, false, 60*time.Second)})
+	}
+	for _, f := range fs {
+		fmt.Printf("  %s %s\n", f.sig, f.msg)
+	}
+	return len(fs) > 0
+}
